@@ -148,9 +148,10 @@ func (c *Real32) Log1pExp(a ConstScalar) Scalar {
     c.Log1p(c)
   } else
   if v <= 33.3 {
-    c.Neg(a)
-    c.Exp(a)
-    c.Add(c, a)
+    // log(1+exp(x)) = x + exp(-x) + O(exp(-2x)); evaluated in one step so
+    // that c may be a
+    e := math.Exp(-v)
+    c.monadic(a, v + e, 1 - e, e)
   } else {
     c.Set(a)
   }
